@@ -499,7 +499,6 @@ func min(a, b int) int {
 	return b
 }
 
-
 // ruleCallSelf: "__call: the handler is called with the object as first argument". Three entries into a
 // call share the shape: (handler, meta) := metaCall(obj); if meta { insert obj in front of the arguments }.
 // The go-inlined copies in the CALL/TAILCALL handlers and callR → pushCallFrame must all insert obj.
